@@ -448,6 +448,60 @@ func rulesC17(c *Ctx) {
 
 	c.Import("R-C17-6", "a traversal never mixes pages of different list versions out of the client's cache: every notification-driven invalidation moves the cache generation (also when the cache is empty), and a page fetched before it is not stored afterwards", "C18", "R-C18-6", nil)
 
+	c.Rule("R-C17-9", "the client iterator starts where the caller's params say and moves only by the server's cursors: in the code behind paginate the only value ever written into the params' cursor is the NextCursor of the page just fetched (a position kept in separate state starts empty and silently discards the caller's initial cursor)", func() {
+		root := c.Fn(pM, "", "paginate")
+		isPtrCall := func(f *Func, e ast.Expr, name string) bool {
+			ce, ok := ast.Unparen(e).(*ast.CallExpr)
+			if !ok {
+				return false
+			}
+			sel, ok := ast.Unparen(ce.Fun).(*ast.SelectorExpr)
+			if !ok || sel.Sel.Name != name {
+				return false
+			}
+			fn, _ := f.ObjOf(sel.Sel).(*types.Func)
+			return fn != nil && fn.Pkg() != nil && fn.Pkg().Path() == modPath+"/"+pM
+		}
+		// fromNext: e is *X where X is res.nextCursorPtr() or a local that only ever holds such a pointer; or a local string
+		// that only ever holds such a dereference
+		var fromNext func(f *Func, e ast.Expr, depth int) bool
+		fromNext = func(f *Func, e ast.Expr, depth int) bool {
+			if depth > 4 {
+				return false
+			}
+			e = ast.Unparen(e)
+			if st, ok := e.(*ast.StarExpr); ok {
+				x := ast.Unparen(st.X)
+				if isPtrCall(f, x, "nextCursorPtr") {
+					return true
+				}
+				if id, isID := x.(*ast.Ident); isID {
+					return onlyFrom(f, id, depth, func(r ast.Expr) bool { return isPtrCall(f, r, "nextCursorPtr") })
+				}
+				return false
+			}
+			if id, isID := e.(*ast.Ident); isID {
+				return onlyFrom(f, id, depth, func(r ast.Expr) bool { return fromNext(f, r, depth+1) })
+			}
+			return false
+		}
+		n := 0
+		for _, f := range c.pkgClosure(root) {
+			for _, fl := range append([]*Func{f}, f.AllLits()...) {
+				for _, w := range Writes(fl.Body, false) {
+					st, ok := ast.Unparen(w.LHS).(*ast.StarExpr)
+					if !ok || !isPtrCall(fl, st.X, "cursorPtr") {
+						continue
+					}
+					n++
+					c.touch(fl)
+					c.Check(w.RHS != nil && fromNext(fl, w.RHS, 0), "paginate:cursor-moves-only-by-NextCursor:"+fl.Name(), fl, w.Stmt, "the value written into the params' cursor (%s) is the NextCursor of a fetched page and nothing else", exprStr(w.RHS))
+				}
+			}
+		}
+		c.Pin("writes into the params' cursor behind paginate", n, 1)
+	})
+
 	c.Rule("R-C17-5", "the client iterators yield what manual paging yields: every item of every page, following NextCursor until it is empty, stopping at the first error", func() {
 		p := c.Fn(pM, "", "paginate")
 		var it *Func
@@ -545,4 +599,31 @@ func rulesC17(c *Ctx) {
 		}
 		c.Check(okErr, "paginate:stops-on-error", it, nil, "after a list error the iterator yields it and does not fetch again")
 	})
+}
+
+// onlyFrom: id is a local variable (not a parameter, not a field) every definition of which satisfies ok.
+func onlyFrom(f *Func, id *ast.Ident, depth int, ok func(ast.Expr) bool) bool {
+	v, isVar := f.ObjOf(id).(*types.Var)
+	if !isVar || v.IsField() {
+		return false
+	}
+	for _, p := range f.Root().Params() {
+		if p == v {
+			return false
+		}
+	}
+	n := 0
+	for _, w := range Writes(f.Root().Body, true) {
+		if f.ObjOf(w.LHS) != types.Object(v) {
+			continue
+		}
+		if _, isID := ast.Unparen(w.LHS).(*ast.Ident); !isID {
+			continue
+		}
+		n++
+		if w.RHS == nil || !ok(w.RHS) {
+			return false
+		}
+	}
+	return n > 0
 }
